@@ -440,67 +440,82 @@ def oldSide (t : T) (r : NNI) : List String :=
   | some S => canonSide t.tipNames (lowerLeaves S.kids (lowIdx r S))
   | none => []
 
+/-- the splits removed by the proposals with `cross = false` (one per branch with both ends of
+    degree three) are pairwise different … -/
+theorem oldSides_nodup (t : T) (hb : t.binary = true) (hpos : pposOK t = true) (hu : t.tipNames.Nodup) :
+    (((rearrangements t).filter fun r => !r.cross).map (oldSide t)).Nodup := by
+  have hk : 2 ≤ t.kids.length := by
+    simp only [T.binary, Bool.and_eq_true, Bool.or_eq_true, beq_iff_eq] at hb
+    rcases hb.1 with h2 | h3 <;> omega
+  -- different proposals with `cross = false` sit on different branches
+  rw [List.nodup_iff_pairwise_ne, List.pairwise_map]
+  have hn : ((rearrangements t).filter fun r => !r.cross).Nodup := (rearrangements_nodup t).sublist List.filter_sublist
+  rw [List.nodup_iff_pairwise_ne] at hn
+  rw [List.pairwise_iff_forall_sublist] at hn ⊢
+  intro r₁ r₂ hsub
+  have hne := hn hsub
+  have hm₁ := List.mem_filter.mp (hsub.subset (show r₁ ∈ [r₁, r₂] by simp))
+  have hm₂ := List.mem_filter.mp (hsub.subset (show r₂ ∈ [r₁, r₂] by simp))
+  obtain ⟨S1, e1, c1, x1, hs1, hj1, hk1, hd1, hr1⟩ := rearrangement_site t r₁ hpos hm₁.1
+  obtain ⟨S2, e2, c2, x2, hs2, hj2, hk2, hd2, hr2⟩ := rearrangement_site t r₂ hpos hm₂.1
+  have hdiff : ¬(r₁.path = r₂.path ∧ lowIdx r₁ S1 = lowIdx r₂ S2) := by
+    rintro ⟨hp, hl⟩
+    apply hne
+    have hs1' := hs1
+    rw [hp, hs2] at hs1'
+    simp only [Option.some.injEq] at hs1'
+    subst hs1'
+    have hj1' := hj1
+    rw [hl, hj2] at hj1'
+    simp only [Option.some.injEq, Prod.mk.injEq] at hj1'
+    obtain ⟨_, rfl⟩ := hj1'
+    rw [hp, hl] at hr1
+    obtain ⟨p, ie, pp, j, q, hN1, hN2⟩ : ∃ p ie pp j q, r₁ = newNNI p ie pp j q x1 ∧ r₂ = newNNI p ie pp j q x2 :=
+      ⟨_, _, _, _, _, hr1, hr2⟩
+    have hc1 : x1 = false := by
+      have : r₁.cross = x1 := by rw [hN1]; rfl
+      have h := hm₁.2
+      rw [this] at h
+      simpa using h
+    have hc2 : x2 = false := by
+      have : r₂.cross = x2 := by rw [hN2]; rfl
+      have h := hm₂.2
+      rw [this] at h
+      simpa using h
+    rw [hN1, hN2, hc1, hc2]
+  have hlow := low_ne t hu hk r₁.path r₂.path (lowIdx r₁ S1) (lowIdx r₂ S2) c1 c2
+    ⟨S1, e1, hs1, hj1, hk1, hd1⟩ ⟨S2, e2, hs2, hj2, hk2, hd2⟩ hdiff
+  simp only [oldSide, hs1, hs2, lowerLeaves, hj1, hj2]
+  exact hlow
+
+/-- … and are non-trivial splits of `t` -/
+theorem oldSides_subset (t : T) (hb : t.binary = true) (hpos : pposOK t = true) (hu : t.tipNames.Nodup) :
+    ∀ a ∈ ((rearrangements t).filter fun r => !r.cross).map (oldSide t), a ∈ t.usplitSet := by
+  -- each of them removes a non-trivial split of `t`
+  intro a ha
+  obtain ⟨r, hr, rfl⟩ := List.mem_map.mp ha
+  have hm := (List.mem_filter.mp hr).1
+  obtain ⟨t', hat, _⟩ := undo_apply t r hpos hm
+  obtain ⟨S, hs, _, hin, _⟩ := apply_split_sets t t' r hb hpos hu hm hat
+  simp only [oldSide, hs]
+  exact hin
+
+/-- hence there are at least as many non-trivial splits as such branches -/
+theorem proposals_le_splits (t : T) (hb : t.binary = true) (hpos : pposOK t = true) (hu : t.tipNames.Nodup) :
+    ((rearrangements t).filter fun r => !r.cross).length ≤ t.usplitSet.length := by
+  rw [← List.length_map (f := oldSide t)]
+  exact List.Nodup.length_le_of_subset (oldSides_nodup t hb hpos hu) (oldSides_subset t hb hpos hu)
+
 /-- An unrooted binary tree with unique tip names has exactly as many non-trivial splits as
     branches whose lower end is not a tip … -/
 theorem usplitSet_length_unrooted (t : T) (hb : t.binary = true) (h3 : t.kids.length = 3) (hpos : pposOK t = true)
     (hu : t.tipNames.Nodup) : t.usplitSet.length = t.internalEdges.length := by
   apply Nat.le_antisymm (usplitSet_length_le t hu)
-  -- the proposals with `cross = false`, one per inner branch, remove pairwise different splits of `t`
   have hhalf : 2 * ((rearrangements t).filter fun r => !r.cross).length = (rearrangements t).length :=
     enumT_filter_cross t true []
   have hcount := count_unrooted t hb h3
-  have hR0 : ((rearrangements t).filter fun r => !r.cross).length = t.internalEdges.length := by omega
-  rw [← hR0, ← List.length_map (f := oldSide t)]
-  apply List.Nodup.length_le_of_subset
-  · -- different proposals with `cross = false` sit on different branches
-    rw [List.nodup_iff_pairwise_ne, List.pairwise_map]
-    have hn : ((rearrangements t).filter fun r => !r.cross).Nodup := (rearrangements_nodup t).sublist List.filter_sublist
-    rw [List.nodup_iff_pairwise_ne] at hn
-    rw [List.pairwise_iff_forall_sublist] at hn ⊢
-    intro r₁ r₂ hsub
-    have hne := hn hsub
-    have hm₁ := List.mem_filter.mp (hsub.subset (show r₁ ∈ [r₁, r₂] by simp))
-    have hm₂ := List.mem_filter.mp (hsub.subset (show r₂ ∈ [r₁, r₂] by simp))
-    obtain ⟨S1, e1, c1, x1, hs1, hj1, hk1, hd1, hr1⟩ := rearrangement_site t r₁ hpos hm₁.1
-    obtain ⟨S2, e2, c2, x2, hs2, hj2, hk2, hd2, hr2⟩ := rearrangement_site t r₂ hpos hm₂.1
-    have hk : 2 ≤ t.kids.length := by omega
-    have hdiff : ¬(r₁.path = r₂.path ∧ lowIdx r₁ S1 = lowIdx r₂ S2) := by
-      rintro ⟨hp, hl⟩
-      apply hne
-      have hs1' := hs1
-      rw [hp, hs2] at hs1'
-      simp only [Option.some.injEq] at hs1'
-      subst hs1'
-      have hj1' := hj1
-      rw [hl, hj2] at hj1'
-      simp only [Option.some.injEq, Prod.mk.injEq] at hj1'
-      obtain ⟨_, rfl⟩ := hj1'
-      rw [hp, hl] at hr1
-      obtain ⟨p, ie, pp, j, q, hN1, hN2⟩ : ∃ p ie pp j q, r₁ = newNNI p ie pp j q x1 ∧ r₂ = newNNI p ie pp j q x2 :=
-        ⟨_, _, _, _, _, hr1, hr2⟩
-      have hc1 : x1 = false := by
-        have : r₁.cross = x1 := by rw [hN1]; rfl
-        have h := hm₁.2
-        rw [this] at h
-        simpa using h
-      have hc2 : x2 = false := by
-        have : r₂.cross = x2 := by rw [hN2]; rfl
-        have h := hm₂.2
-        rw [this] at h
-        simpa using h
-      rw [hN1, hN2, hc1, hc2]
-    have hlow := low_ne t hu hk r₁.path r₂.path (lowIdx r₁ S1) (lowIdx r₂ S2) c1 c2
-      ⟨S1, e1, hs1, hj1, hk1, hd1⟩ ⟨S2, e2, hs2, hj2, hk2, hd2⟩ hdiff
-    simp only [oldSide, hs1, hs2, lowerLeaves, hj1, hj2]
-    exact hlow
-  · -- each of them removes a non-trivial split of `t`
-    intro a ha
-    obtain ⟨r, hr, rfl⟩ := List.mem_map.mp ha
-    have hm := (List.mem_filter.mp hr).1
-    obtain ⟨t', hat, _⟩ := undo_apply t r hpos hm
-    obtain ⟨S, hs, _, hin, _⟩ := apply_split_sets t t' r hb hpos hu hm hat
-    simp only [oldSide, hs]
-    exact hin
+  have := proposals_le_splits t hb hpos hu
+  omega
 
 /-- … hence completeness in terms of the Spec's own notion of inner branch: exactly two
     rearrangements per non-trivial split. -/
@@ -533,6 +548,19 @@ theorem count_rooted_tip_at_root (t : T) (hb : t.binary = true) (hr : t.rooted =
   simp only [Spec.innerBranchesShape, hr, if_true]
   omega
 
+/-- … in the Spec's own terms (two per non-trivial split), for a rooted binary tree with unique
+    tip names and a tip at the root. -/
+theorem count_rooted_tip_at_root_splits (t : T) (hb : t.binary = true) (hr : t.rooted = true)
+    (h1 : (t.kids.filter (fun et => !et.2.isLeaf)).length = 1) (hpos : pposOK t = true) (hu : t.tipNames.Nodup) :
+    (rearrangements t).length = 2 * Spec.innerBranches t := by
+  have hc := count_rooted_partial t hb hr
+  have hhalf : 2 * ((rearrangements t).filter fun r => !r.cross).length = (rearrangements t).length :=
+    enumT_filter_cross t true []
+  have hlow := proposals_le_splits t hb hpos hu
+  have hup := usplitSet_length_lt_rooted_tip t hu hr h1
+  simp only [Spec.innerBranches]
+  omega
+
 /-- … and exactly the two rearrangements of the root branch are missing when both children
     of the root are inner nodes (F22). -/
 theorem count_rooted_two_missing (t : T) (hb : t.binary = true) (hr : t.rooted = true)
@@ -541,6 +569,106 @@ theorem count_rooted_two_missing (t : T) (hb : t.binary = true) (hr : t.rooted =
   have := count_rooted_partial t hb hr
   simp only [Spec.innerBranchesShape, hr, if_true]
   omega
+
+/-- … in the Spec's own terms: a rooted binary tree with unique tip names whose root has two inner
+    children gets exactly two rearrangements fewer than two per non-trivial split (F22). -/
+theorem count_rooted_two_missing_splits (t : T) (hb : t.binary = true) (hr : t.rooted = true)
+    (h2 : (t.kids.filter (fun et => !et.2.isLeaf)).length = 2) (hpos : pposOK t = true) (hu : t.tipNames.Nodup) :
+    (rearrangements t).length + 2 = 2 * Spec.innerBranches t := by
+  have hc := count_rooted_partial t hb hr
+  have hhalf : 2 * ((rearrangements t).filter fun r => !r.cross).length = (rearrangements t).length :=
+    enumT_filter_cross t true []
+  have hup := usplitSet_length_lt_rooted_inner t hu hr h2
+  -- the root split is one more non-trivial split, different from all those the proposals remove
+  suffices hlow : ((rearrangements t).filter fun r => !r.cross).length + 1 ≤ t.usplitSet.length by
+    simp only [Spec.innerBranches]
+    omega
+  obtain ⟨d, p, k⟩ := t
+  simp only [T.rooted, T.kids_node, beq_iff_eq] at hr h2
+  match k, hr, hb, hu, h2, hpos with
+  | [(e1, a), (e2, b)], _, hb, hu, h2, hpos =>
+    have hall : (T.node d p [(e1, a), (e2, b)]).tipNames = a.leaves ++ b.leaves := by
+      simp [T.tipNames, leavesL]
+    simp only [List.filter_cons, List.filter_nil] at h2
+    have ha : a.isLeaf = false := by
+      cases ha : a.isLeaf <;> cases hb' : b.isLeaf <;> simp [ha, hb'] at h2 ⊢
+    have hbl : b.isLeaf = false := by
+      cases ha' : a.isLeaf <;> cases hb' : b.isLeaf <;> simp [ha', hb'] at h2 ⊢
+    -- both children of the root have two children
+    simp only [T.binary, T.kids_node, binaryL, Bool.and_eq_true] at hb
+    obtain ⟨_, hba, hbb, _⟩ := hb
+    obtain ⟨da, pa, ka⟩ := a
+    obtain ⟨db, pb, kb⟩ := b
+    simp only [T.binaryBelow, Bool.and_eq_true, Bool.or_eq_true, beq_iff_eq] at hba hbb
+    have hka : ka.length = 2 := by
+      rcases hba.1 with h | h
+      · have : ka = [] := List.length_eq_zero_iff.mp h
+        subst this; simp [T.isLeaf] at ha
+      · exact h
+    have hkb : kb.length = 2 := by
+      rcases hbb.1 with h | h
+      · have : kb = [] := List.length_eq_zero_iff.mp h
+        subst this; simp [T.isLeaf] at hbl
+      · exact h
+    match ka, hka, kb, hkb with
+    | [(ea1, a1), (ea2, a2)], _, [(eb1, b1), (eb2, b2)], _ =>
+      have hnd := hu
+      rw [hall] at hnd
+      simp only [T.leaves, leavesL, List.append_nil, List.nodup_append, List.mem_append] at hnd
+      obtain ⟨x1, hx1⟩ := List.exists_mem_of_ne_nil _ (leaves_ne_nil a1)
+      obtain ⟨x2, hx2⟩ := List.exists_mem_of_ne_nil _ (leaves_ne_nil a2)
+      obtain ⟨y1, hy1⟩ := List.exists_mem_of_ne_nil _ (leaves_ne_nil b1)
+      obtain ⟨y2, hy2⟩ := List.exists_mem_of_ne_nil _ (leaves_ne_nil b2)
+      let tt : T := T.node d p [(e1, T.node da pa [(ea1, a1), (ea2, a2)]), (e2, T.node db pb [(eb1, b1), (eb2, b2)])]
+      have hbin : tt.binary = true := by
+        simp only [tt, T.binary, T.kids_node, binaryL, T.binaryBelow, Bool.and_eq_true, Bool.or_eq_true, beq_iff_eq]
+        simp only [binaryL, Bool.and_eq_true] at hba hbb
+        exact ⟨by simp, ⟨by simp, hba.2⟩, ⟨by simp, hbb.2⟩, trivial⟩
+      -- the root split
+      have hroot_in : canonSide tt.tipNames (a1.leaves ++ a2.leaves) ∈ tt.usplitSet := by
+        rw [mem_usplitSet]
+        refine ⟨⟨⟨a1.leaves ++ a2.leaves, e1, false⟩, by simp [tt, T.splits, splitsL, T.leaves, leavesL, T.isLeaf], rfl⟩, ?_⟩
+        have hallt : tt.tipNames = (a1.leaves ++ a2.leaves) ++ (b1.leaves ++ b2.leaves) := by
+          simp [tt, T.tipNames, leavesL, T.leaves]
+        rw [hallt]
+        have hnd' : ((a1.leaves ++ a2.leaves) ++ (b1.leaves ++ b2.leaves)).Nodup := by
+          have := hu
+          simp only [T.tipNames, T.kids_node, leavesL, T.leaves, List.append_nil] at this
+          simpa using this
+        apply lightSize_canonSide hnd' (by simp only [List.nodup_append]; exact hnd.1)
+          (a := x1) (b := x2) (p := y1) (q := y2)
+        all_goals (first | (simp only [List.mem_append]; grind) | grind)
+      -- it differs from every split a proposal removes
+      have hroot_out : canonSide tt.tipNames (a1.leaves ++ a2.leaves) ∉
+          ((rearrangements tt).filter fun r => !r.cross).map (oldSide tt) := by
+        intro hmem
+        obtain ⟨r, hr, heq⟩ := List.mem_map.mp hmem
+        have hm := (List.mem_filter.mp hr).1
+        obtain ⟨S, e, c, x, hs, hj, hk, hd, _⟩ := rearrangement_site tt r hpos hm
+        have hq : r.path ≠ [] := by
+          intro h0
+          rw [h0] at hs hd
+          simp only [subAt, Option.some.injEq] at hs
+          subst hs
+          simp [tt] at hd
+        have h1 : Low' tt [] 0 (T.node da pa [(ea1, a1), (ea2, a2)]) :=
+          ⟨tt, e1, rfl, by simp [tt], rfl, by simp [tt]⟩
+        have h2' : Low' tt r.path (lowIdx r S) c := (show Low tt r.path (lowIdx r S) c from ⟨S, e, hs, hj, hk, hd⟩).low'
+        have := low_ne' tt hu (by simp [tt]) [] r.path 0 (lowIdx r S) _ c h1 h2'
+          (fun h => hq h.1.symm) (fun _ h => absurd h hq)
+        apply this
+        simp only [oldSide, hs, lowerLeaves, hj] at heq
+        simp only [T.kids_node, leavesL, List.append_nil]
+        exact heq.symm
+      have hnodup : (canonSide tt.tipNames (a1.leaves ++ a2.leaves) ::
+          ((rearrangements tt).filter fun r => !r.cross).map (oldSide tt)).Nodup :=
+        List.nodup_cons.mpr ⟨hroot_out, oldSides_nodup tt hbin hpos hu⟩
+      have := List.Nodup.length_le_of_subset hnodup (l₂ := tt.usplitSet) (by
+        intro x hx
+        rcases List.mem_cons.mp hx with rfl | hx
+        · exact hroot_in
+        · exact oldSides_subset tt hbin hpos hu x hx)
+      simpa using this
 
 /-- the rooted quartet `((a,b),(c,d))` -/
 def witnessRooted : T :=
@@ -555,6 +683,14 @@ theorem count_rooted_fails :
     Spec.innerBranchesShape witnessRooted = 1 ∧ (rearrangements witnessRooted).length = 0 := by
   decide
 
+/-- … the same in the Spec's own terms: the rooted quartet has one non-trivial split and gets no
+    rearrangement, so "two per inner branch" fails on it. -/
+theorem count_rooted_fails_splits :
+    Spec.innerBranches witnessRooted = 1 ∧ (rearrangements witnessRooted).length ≠ 2 * Spec.innerBranches witnessRooted := by
+  have h := count_rooted_two_missing_splits witnessRooted (by decide) (by decide) (by decide) (by decide) (by decide)
+  have h0 : (rearrangements witnessRooted).length = 0 := by decide
+  omega
+
 /-- calling `Apply` on an applied NNI changes nothing -/
 theorem obj_apply_applied (o : Obj) (t : T) (h : o.applied = true) : o.apply t = some (t, o) := by
   simp [Obj.apply, h]
@@ -562,6 +698,28 @@ theorem obj_apply_applied (o : Obj) (t : T) (h : o.applied = true) : o.apply t =
 /-- calling `Undo` on an NNI that is not applied changes nothing -/
 theorem obj_undo_not_applied (o : Obj) (t : T) (h : o.applied = false) : o.undo t = some (t, o) := by
   simp [Obj.undo, h]
+
+/-- `Apply` is idempotent through the `applied` flag: a second call changes nothing -/
+theorem obj_apply_idempotent (o o₁ : Obj) (t t₁ : T) (h : o.apply t = some (t₁, o₁)) : o₁.apply t₁ = some (t₁, o₁) := by
+  unfold Obj.apply at h
+  split at h
+  · rename_i ha
+    simp only [Option.some.injEq, Prod.mk.injEq] at h
+    obtain ⟨rfl, rfl⟩ := h
+    simp [Obj.apply, ha]
+  · split at h
+    · cases h
+    · simp only [Option.some.injEq, Prod.mk.injEq] at h
+      obtain ⟨rfl, rfl⟩ := h
+      simp [Obj.apply]
+
+/-- the object as the callback uses it: `Apply` (twice), `Undo` (twice) on a fresh rearrangement
+    proposed for `t` gives back `t` and a rearrangement that is not applied -/
+theorem obj_roundtrip (t : T) (r : NNI) (hpos : pposOK t = true) (h : r ∈ rearrangements t) :
+    ∃ t₁, (Obj.mk r false).apply t = some (t₁, ⟨r, true⟩) ∧ (Obj.mk r true).apply t₁ = some (t₁, ⟨r, true⟩) ∧
+      (Obj.mk r true).undo t₁ = some (t, ⟨r, false⟩) ∧ (Obj.mk r false).undo t = some (t, ⟨r, false⟩) := by
+  obtain ⟨t₁, ha, hu⟩ := undo_apply t r hpos h
+  exact ⟨t₁, by simp [Obj.apply, ha], by simp [Obj.apply], by simp [Obj.undo, hu], by simp [Obj.undo]⟩
 
 /- ## the hypotheses are satisfiable on non-trivial trees -/
 
@@ -584,6 +742,15 @@ example : pposOK witnessRootedTip = true ∧ witnessRootedTip.binary = true ∧ 
     (witnessRootedTip.kids.filter (fun et => !et.2.isLeaf)).length = 1 ∧
     (rearrangements witnessRootedTip).length = 4 ∧ (rearrangements witnessRootedTip).any (·.bUp) = true := by decide
 example : witnessUnrooted.tipNames.Nodup ∧ witnessRootedTip.tipNames.Nodup := by decide
+/-- The orientation clause of `apply t r = some t'` has teeth: a variant of `Apply` that does not
+    invert the central branch leaves a heap the α walk rejects, for the rearrangements of
+    `witnessRootedTip` that swap the root side — while the model of the code succeeds on all. -/
+theorem apply_no_inverse_fails :
+    ((rearrangements witnessRootedTip).filter (·.bUp)).length = 2 ∧
+    ((rearrangements witnessRootedTip).filter (·.bUp)).all (fun r => (applyNoInverse witnessRootedTip r).isNone) = true ∧
+    (rearrangements witnessRootedTip).all (fun r => (apply witnessRootedTip r).isSome) = true := by
+  decide
+
 example : pposOK witnessRooted = true ∧ (witnessRooted.kids.filter (fun et => !et.2.isLeaf)).length = 2 := by decide
 
 end Gotree.C17
